@@ -13,9 +13,20 @@ RULE = ("generated object trees (leaf / derived leaf / mid / top classes, 1-3 su
         "every lowered formula (non-random fields must appear as constants of their current value), values of all fields before/after "
         "(success and SolveFailure); non-trivial = distinct (used flags, active blocks, callbacks) triples")
 
+def free_standing(ck, tier, cases):
+    import freecheck
+    if cases is not None:
+        freecheck.run(ck, 0, extra=[{"fields": c["fields"], "calls": c["calls"]} for c in cases])
+    else:
+        freecheck.run(ck, 3000 if tier == "thorough" else 160)
+
+
 if __name__ == "__main__":
     common.run_main(lambda: worldcheck.standard_main(
         "C03", ["C03"], THEOREMS, {"nops": 8}, 150, 6000,
         ["as C01 for the solve itself; rand_mode is toggled on scalar fields only (through vsc.raw_mode())",
-         "free-standing vsc.randomize(...) and mutable rangelists / non-random lists are not generated in this revision"],
-        RULE, keep=lambda w: not w.startswith("callbacks")))
+         "mutable rangelists / non-random lists edited between calls are not generated in this revision (non-random lists as constants: C04)"],
+        RULE + "; plus free-standing calls: 2-4 stand-alone fields, 2-4 calls vsc.randomize(*passed) / vsc.randomize_with(*passed) with "
+        "inline constraints over passed and not-passed fields, assignments between calls; a field is random in a call iff it is passed; "
+        "fields that are not passed must keep their values and appear as constants in every formula",
+        keep=lambda w: not w.startswith("callbacks"), extra_run=free_standing))
